@@ -1,0 +1,43 @@
+//go:build verif
+
+// Contracts for the govc verifier (/verif). Comment-only; see ../../contracts_verif.go.
+
+package sqlite
+
+// ---------------------------------------------------------------------------------------------
+// C16: the SQLite handler's replies
+
+//@ func queryEvent
+//@   serves C16
+//@   trusted executes SQL through database/sql (relational semantics are outside any contract, see C06)
+//@   requires db != nil
+//@   writes ghost(lastquery, db)
+//@   ensures err == nil ==> events == g(lastquery, db)
+
+//@ func simpleSQLiteHandler.serveClientReqMsg
+//@   serves C16
+//@   requires h != nil && h.db != nil && msg != nil
+//@   opt overflow=assume
+//@   ensures result1 == nil && !isnil(result0) && chanclosed(result0) && chanhead(result0) == 0
+//@   ensures[C16] len(chanbuf(result0)) >= 1 && isEOSEFor(chanbuf(result0)[len(chanbuf(result0)) - 1], msg.SubscriptionID)
+//@   ensures[C16] forall(i, 0, len(chanbuf(result0)) - 1, typeis(chanbuf(result0)[i], *mocrelay.ServerEventMsg) && as(chanbuf(result0)[i], *mocrelay.ServerEventMsg).SubscriptionID == msg.SubscriptionID && as(chanbuf(result0)[i], *mocrelay.ServerEventMsg).Event == g(lastquery, h.db)[i])
+//@   ensures[C16] len(chanbuf(result0)) == 1 || len(chanbuf(result0)) == len(g(lastquery, h.db)) + 1
+//@   loop 1 as i
+//@     lwrites contents(smsgCh)
+//@     invariant !isnil(smsgCh) && fresh(smsgCh) && !chanclosed(smsgCh) && chancap(smsgCh) == len(events) + 1 && chanhead(smsgCh) == 0
+//@     invariant len(chanbuf(smsgCh)) == i && forall(j, 0, i, isEventMsgFor(chanbuf(smsgCh)[j], msg.SubscriptionID, events[j]))
+
+//@ func simpleSQLiteHandler.serveClientEventMsg
+//@   serves C16
+//@   requires h != nil && msg != nil && msg.Event != nil
+//@   ensures[C16] result1 == nil ==> (holdsOneS(result0) && isOKFor(chanbuf(result0)[0], msg.Event.ID) && as(chanbuf(result0)[0], *mocrelay.ServerOKMsg).Accepted)
+//@   ensures[C16] result1 == nil ==> (len(chanbuf(h.eventCh)) == old(len(chanbuf(h.eventCh))) + 1 && chanbuf(h.eventCh)[len(chanbuf(h.eventCh)) - 1] == msg.Event)
+//@   ensures result1 != nil ==> isnil(result0)
+
+//@ func simpleSQLiteHandler.ServeNostrClientMsg
+//@   serves C16
+//@   requires h != nil && h.db != nil && wfClientMsg(msg)
+//@   ensures[C16] (typeis(msg, *mocrelay.ClientCloseMsg) || typeis(msg, *mocrelay.ClientAuthMsg)) ==> (isnil(result0) && result1 == nil)
+//@   ensures[C16] typeis(msg, *mocrelay.ClientCountMsg) ==> (result1 == nil && holdsOneS(result0) && isCountFor(chanbuf(result0)[0], as(msg, *mocrelay.ClientCountMsg).SubscriptionID))
+//@   ensures[C16] typeis(msg, *mocrelay.ClientReqMsg) ==> (result1 == nil && !isnil(result0) && chanclosed(result0) && len(chanbuf(result0)) >= 1 && isEOSEFor(chanbuf(result0)[len(chanbuf(result0)) - 1], as(msg, *mocrelay.ClientReqMsg).SubscriptionID))
+//@   ensures[C16] (typeis(msg, *mocrelay.ClientEventMsg) && result1 == nil) ==> (holdsOneS(result0) && isOKFor(chanbuf(result0)[0], as(msg, *mocrelay.ClientEventMsg).Event.ID) && as(chanbuf(result0)[0], *mocrelay.ServerOKMsg).Accepted)
